@@ -359,6 +359,11 @@ class WebSocketApp:
             self._callback(self.on_close, close_status_code, close_reason)
 
         def setSock(reconnecting: bool = False) -> None:
+            if reconnecting and not self.keep_running:
+                # close() was called while waiting for the reconnect interval
+                teardown()
+                return
+
             if reconnecting and self.sock:
                 self.sock.shutdown()
 
